@@ -259,6 +259,10 @@ def mismatch_kind(i, m):
         for pre in ("panic", "hang", "crash", "bad:", "err", "dead"):
             if o.startswith(pre):
                 return pre
+        if o in ("nostore", "nocoll", "nofile", "bad-op", "missing"):
+            # the harness's own answer for "there is no such store / collection / file": a candidate
+            # that fails like this has lost its subject, it is not a smaller witness of a value error
+            return "noobj"
         return "value"
     return k(i) + "/" + k(m)
 
